@@ -261,3 +261,21 @@ Theorem C05_history_values_perm : forall W sem, wf W -> sem_nonblank_weak W sem 
     Permutation (combine h1 (snd (run W sem s h1))) (combine h2 (snd (run W sem s h2))).
 Proof. exact history_values_perm_weak. Qed.
 Print Assumptions C05_history_values_perm.
+
+(* the same cell reached through ANY two range nodes that contain it (at
+   positions (i1, j1) and (i2, j2)), the second asked after any Build/Evaluate
+   history: the same element *)
+Theorem C05_path_any_range : forall W sem, wf W -> sem_nonblank_weak W sem -> stored_ok W sem ->
+  forall s h r1 cols1 i1 j1 r2 cols2 i2 j2,
+    Inv W sem s -> Forall (be_op W) h ->
+    r1 < wb_n W -> wb_input W r1 = false ->
+    (forall vals, sem r1 vals = sem_formula (FRange cols1) vals) ->
+    0 < cols1 -> j1 < cols1 -> i1 * cols1 + j1 < length (wb_deps W r1) ->
+    r2 < wb_n W -> wb_input W r2 = false ->
+    (forall vals, sem r2 vals = sem_formula (FRange cols2) vals) ->
+    0 < cols2 -> j2 < cols2 -> i2 * cols2 + j2 < length (wb_deps W r2) ->
+    nth (i1 * cols1 + j1) (wb_deps W r1) 0 = nth (i2 * cols2 + j2) (wb_deps W r2) 0 ->
+    tuple_at (snd (evaluate W sem s r1)) i1 j1
+    = tuple_at (snd (evaluate W sem (fst (run W sem s h)) r2)) i2 j2.
+Proof. exact path_any_range_weak. Qed.
+Print Assumptions C05_path_any_range.
